@@ -85,6 +85,9 @@ Definition s_op (o : opn) (qs : list (Z * Z)) : res :=
   | OBit b, _ => if ints then RVal (canon_int (fold_left (bit_z b) (map fst qs) (bit_unit b)))
                  else RCond CType
   | OLognot, [a] => if snd a =? 1 then RVal (canon_int (Z.lnot (fst a))) else RCond CType
+  | OExt mx, a :: rest =>      (* the largest / smallest of the exact values, in canonical form *)
+      let t := fold_left (fun x y => if (if mx then qlt x y else qlt y x) then y else x) rest a in
+      RVal (canon (fst t) (snd t))
   | OCmp c, a :: rest =>
       RBool (match c with
              | CLt => s_chain qlt a rest
@@ -156,6 +159,12 @@ Definition in_domain (o : opn) (args : list val) : bool :=
      the canonical form only when the exact result does not fit in 64 bits *)
   | OBit b => all_int args && (all_fix args || negb (in64 (fold_left (bit_z b) (map as_int args) (bit_unit b))))
   | OLognot => match args with [VFix z] => in64 z | [VBig z] => negb (in64 (Z.lnot z)) | _ => false end
+  (* max min: one operand or more, in canonical form (the result is one of the operand objects), and no bignum
+     together with a ratio among them (any two operands may meet in a comparison; a canonical bignum is beyond
+     64 bits, so that pair would go through floats) *)
+  | OExt _ => negb (Nat.eqb (length args) 0) && forallb canonical args &&
+              negb (existsb (fun v => match v with VRat _ _ => true | _ => false end) args &&
+                    existsb (fun v => match v with VBig _ => true | _ => false end) args)
   (* / on fixnums: the quotient of two fixnums always; in longer chains and for the reciprocal two results
      are not demoted (known findings): (/ -1) is the ratio -1/1, and after most-negative-fixnum / -1 = 2^63
      the quotient stays a bignum object *)
